@@ -1800,3 +1800,33 @@ def state_rule(repo, rep, rule=None):
                    "and loaders) in the property's modules equals the "
                    "reviewed one")
     return g_state(repo, rep, rule, mods, "%s modules" % prop)
+
+
+# ---------------------------------------------------------------------------
+# string formatting, whatever its spelling ('..{}..'.format(a), f-strings and
+# '..%s..' % a all reach the rules as the %-form: alpha.py)
+
+
+def fmt_sites(node):
+    """-> [(format text, [argument nodes], node)] of the %-formattings with
+    a constant format string below ``node``"""
+    out = []
+    for n in ast.walk(node):
+        if isinstance(n, ast.BinOp) and isinstance(n.op, ast.Mod) and \
+                isinstance(n.left, ast.Constant) and \
+                isinstance(n.left.value, str):
+            args = list(n.right.elts) if isinstance(n.right, ast.Tuple) \
+                else [n.right]
+            out.append((n.left.value, args, n))
+    return out
+
+
+def inlined_text(fnode, expr_or_text):
+    """source text of an expression (a node of ``fnode`` or a text written
+    with fnode's local names) with every single-assignment local replaced by
+    its value: two spellings of one condition, with and without named
+    intermediate values, read the same"""
+    e = expr_or_text
+    if isinstance(e, str):
+        e = ast.parse(e, mode="eval").body
+    return src(inline_locals(fnode, e))
